@@ -411,7 +411,7 @@ pub fn property() -> Property {
                 name: "direct",
                 plan: |t| match t {
                     Tier::Quick => Plan::Random { cases: 300_000, max_len: 200 },
-                    Tier::Thorough => Plan::Random { cases: 5_000_000, max_len: 300 },
+                    Tier::Thorough => Plan::Random { cases: 15_000_000, max_len: 300 },
                 },
                 case: case_direct,
                 min_classes: &[("value-looks-like-expansion", 5000), ("undefined-name", 5000), ("empty-name", 1000), ("spread-0-words", 2000), ("spread-spaces-only", 300), ("escaped-reference", 5000), ("spread-word-starts-with-backslash", 300)],
@@ -420,7 +420,7 @@ pub fn property() -> Property {
                 name: "text",
                 plan: |t| match t {
                     Tier::Quick => Plan::Random { cases: 60_000, max_len: 260 },
-                    Tier::Thorough => Plan::Random { cases: 1_000_000, max_len: 360 },
+                    Tier::Thorough => Plan::Random { cases: 3_000_000, max_len: 360 },
                 },
                 case: case_text,
                 min_classes: &[("value-delivered-at-run-time", 5000)],
